@@ -32,6 +32,7 @@ def spin_menu(n):
         ("ones", np.array([1.0 if i < (n + 1) // 2 else 0.0 for i in range(n)])),
         ("frac", np.array([0.75, 0.5, 0.25, 0.125, 0.0625, 0.0][:n])),
         ("zeros", np.zeros(n)),
+        ("halves", np.full(n, 0.5)),  # alpha == beta == 0.5 sums to the integer occupation 1
     ]
 
 
@@ -521,6 +522,47 @@ def shell_histories(ctx):
                                           f"{hist}: nbasis reads {got}, angmoms/kinds now give {count(second)}")
 
 
+def shell_assignments(ctx):
+    """Every single shape mismatch assigned to every array attribute of a valid Shell must be rejected (and leave the
+    shell usable); a correctly shaped replacement must be accepted."""
+    from iodata.basis import Shell
+
+    for ncon, nexp in itertools.product((1, 2, 3), (1, 2, 3)):
+        def fresh():
+            return Shell(0, [i % 3 for i in range(ncon)], ["c"] * ncon, np.arange(1.0, nexp + 1), np.ones((nexp, ncon)))
+
+        variants = {
+            "angmoms": [("same-shape", [1] * ncon, True), ("longer", [1] * (ncon + 1), False), ("shorter", [1] * (ncon - 1), False)],
+            "kinds": [("same-shape", ["c"] * ncon, True), ("longer", ["c"] * (ncon + 1), False), ("shorter", ["c"] * (ncon - 1), False)],
+            "exponents": [("same-shape", np.arange(2.0, nexp + 2), True), ("longer", np.arange(1.0, nexp + 2), False), ("shorter", np.arange(1.0, nexp), False)],
+            "coeffs": [("same-shape", np.full((nexp, ncon), 0.5), True), ("more-columns", np.ones((nexp, ncon + 1)), False), ("fewer-columns", np.ones((nexp, ncon - 1)), False),
+                       ("more-rows", np.ones((nexp + 1, ncon)), False), ("fewer-rows", np.ones((nexp - 1, ncon)), False), ("one-dimensional", np.ones(nexp * ncon), False),
+                       ("transposed", np.ones((ncon, nexp)), nexp == ncon)],
+        }
+        for attr, menu in variants.items():
+            for label, value, acceptable in menu:
+                ctx.count()
+                case = {"ncon": ncon, "nexp": nexp, "attribute": attr, "value": label}
+                ctx.nontrivial(("shell-assign", ncon, nexp, attr, label))
+                sh = fresh()
+                try:
+                    setattr(sh, attr, value)
+                    err = None
+                except Exception as exc:  # noqa: BLE001
+                    err = exc
+                if acceptable:
+                    ctx.outcome("shell-assign", "accepted" if err is None else "REJECTED-VALID")
+                    if err is not None:
+                        ctx.violation("shell", f"shell:valid-{attr}-assignment-rejected", case, f"Shell(ncon={ncon}, nexp={nexp}).{attr} = {label}: {err!r}")
+                    continue
+                ctx.outcome("shell-assign", "rejected" if isinstance(err, TypeError) else "ACCEPTED-MISMATCH" if err is None else f"raises-{type(err).__name__}")
+                if err is None:
+                    ctx.violation("shell", f"shell:{attr}-shape-mismatch-accepted:{label}", case,
+                                  f"Shell with {ncon} contractions and {nexp} primitives accepted {attr} of shape {np.shape(value)}; angmoms {len(sh.angmoms)}, kinds {len(sh.kinds)}, exponents {np.shape(sh.exponents)}, coeffs {np.shape(sh.coeffs)}")
+                elif not isinstance(err, TypeError):
+                    ctx.violation("shell", f"shell:{attr}-shape-mismatch-raises-{type(err).__name__}", case, repr(err))
+
+
 def run(ctx):
     from mc.pool import pmap
 
@@ -531,6 +573,7 @@ def run(ctx):
     g = esb.bfs(inits, ops_of, build, canon, oracle.on_transition, depth, on_state=oracle.on_state)
     generalized_cases(ctx)
     shell_histories(ctx)
+    shell_assignments(ctx)
     counts = [None, 0, 1, 2, 3] + ([5, 6] if ctx.thorough else [])
     pmap(ctx, ctor_worker, [(k, a, b) for k in ("restricted", "unrestricted", "generalized") for a in counts for b in counts], chunk=2)
     types = [(l, k) for l in (0, 1, 2, 5, 9) for k in ("c", "p", "x")]
@@ -548,7 +591,7 @@ def run(ctx):
         f"ESB: all histories of <= {depth} assignments (occs/occs_aminusb/occsa/occsb from menus of right- and wrong-length arrays, None) and reads after every "
         f"restricted/unrestricted start object with norba,norbb <= {max_norb} x initial occupations {{None, closed, open, fractional, within 1e-10 of integers}} x occs_aminusb {{None,pos,neg}}; "
         f"constructor product kind x norba x norbb x (<=2 arrays absent/longer/shorter); shells: all sequences of <= {maxcon} contractions over l in {{0,1,2,5,9}} x kind in {{c,p,x}} x nexp {{1,3}} "
-        "x every single shape mismatch. States hashed on (kind, counts, occs, occs_aminusb, coeffs, energies)."
+        "x every single shape mismatch, at construction and (ncon, nexp <= 3) on assignment to each array attribute. States hashed on (kind, counts, occs, occs_aminusb, coeffs, energies)."
     )
     ctx.assumptions += ["a failed assignment need only leave a consistent object (the statement does not demand it be unchanged for orbital objects)",
                         "an assignment that raises where the statement does not demand success (e.g. occsa on unrestricted orbitals without occs) is recorded, not judged"]
